@@ -99,7 +99,11 @@ func genC06(tier, out string, sum *Summary) {
 		}
 		docs := make([]any, 3)
 		for j := range docs {
-			docs[j] = withSpare(genDoc())
+			if j > 0 {
+				docs[j] = withSpare(docFor(e))
+			} else {
+				docs[j] = withSpare(genDoc())
+			}
 		}
 		type past struct {
 			res  any
